@@ -223,8 +223,9 @@ func (b *Built) defineNode(n int, g *getoptions.GetOpt) {
 	}
 	if nd.DynFn {
 		out := StringsOf(nd.DynOut)
+		// the function answers its fixed list plus one candidate that spells out the arguments it was called with
 		g.ArgCompletionsFns(func(target string, prev []string, partial string) []string {
-			return append([]string{}, out...)
+			return append(append([]string{}, out...), "@"+target+"@"+strings.Join(prev, ",")+"@"+partial)
 		})
 	}
 	for i := range nd.Args {
@@ -328,7 +329,9 @@ func (b *Built) defineOpt(i int, g *getoptions.GetOpt) {
 	}
 	if len(o.SuggFn) > 0 {
 		out := StringsOf(o.SuggFn)
-		fns = append(fns, g.SuggestedValuesFn(func(target string, partial string) []string { return append([]string{}, out...) }))
+		fns = append(fns, g.SuggestedValuesFn(func(target string, partial string) []string {
+			return append(append([]string{}, out...), partial+"@"+target)
+		}))
 	}
 	if len(o.Env) > 0 {
 		if fn, ok := b.envFns[i]; ok {
